@@ -264,7 +264,7 @@ def tlc_sharded(module, consts, invs, props, nshards, workers_each, timeout, tag
     return res
 
 
-def fmm_campaign(run, name, consts, workers=1, timeout=1500, variant="plain", cap=64, module="Fmm", shards=8):
+def fmm_campaign(run, name, consts, workers=1, timeout=1500, variant="plain", cap=64, module="Fmm", shards=8, tsmwrap=0):
     """TLC explores every scenario of the configuration (checking the invariants of Fmm.tla in every state) and prints one line
     per finished scenario; the scenarios are replayed on the real classes by replay_fmm.  Returns (scenario lines, mismatches)."""
     if module == "Fmm":
@@ -278,8 +278,8 @@ def fmm_campaign(run, name, consts, workers=1, timeout=1500, variant="plain", ca
         run.machinery_errors.append("TLC: %s of spec/%s.tla is violated in configuration %s: the specification itself is inconsistent (log %s)" % (res.violated, module, name, res.logpath))
         return [], []
     scn = [r for r in res.lines if r.get("k") == "scn"]
-    binp = need(build("replay_fmm_%d_%d_%d%s" % (consts["Dim"], int(consts["Periodic"]), cap, "_asan" if variant == "asan" else ""), "replay_fmm.cpp",
-                      ["DIMV=%d" % consts["Dim"], "PERIODICV=%d" % int(consts["Periodic"]), "CAPV=%d" % cap], variant=variant), run)
+    binp = need(build("replay_fmm_%d_%d_%d%s%s" % (consts["Dim"], int(consts["Periodic"]), cap, "_asan" if variant == "asan" else "", ("_tsmwrap%d" % tsmwrap) if tsmwrap else ""), "replay_fmm.cpp",
+                      ["DIMV=%d" % consts["Dim"], "PERIODICV=%d" % int(consts["Periodic"]), "CAPV=%d" % cap] + (["TSMWRAPV=%d" % tsmwrap] if tsmwrap else []), variant=variant), run)
     pool = sorted(consts["Pool"])
     recs = [fmm_record(r, pool, (i + run.seed) % NVARIANTS) for i, r in enumerate(scn)]
     nchunks = max(1, min(vlib.NCPU, len(recs) // 200))
@@ -581,6 +581,17 @@ def check_c18(run):
     cs = std_configs(run.tier, hists=("full", "stages3", "uponly", "m2lafterup", "p2ponly"), stops=(0, 2, 3), small=True)
     cs.append(("1d-h5-multi", fmm_constants(1, 5, POOL_1D_H5[:5], maxper=3, maxparts=8, bss=(1, 2, 20))))
     run_fmm_configs(run, "C18", cs)
+    # the target/source executor around the wrappers: TbfInteractionCounter<BagKernel> (1) and TbfInteractionCounter<TbfInteractionTimer<BagKernel>> (2)
+    for v, what in ((1, "TbfInteractionCounter"), (2, "TbfInteractionCounter<TbfInteractionTimer>")):
+        for dim, consts in ((1, fmm_constants(1, 4, range(5), mode="tsm", bss=(1, 2, 3))), (2, fmm_constants(2, 3, [0, 3, 9, 15], mode="tsm", maxparts=3, bss=(1, 2)))):
+            path, err = build("replay_fmm_%d_0_64_tsmwrap%d" % (dim, v), "replay_fmm.cpp", ["DIMV=%d" % dim, "PERIODICV=0", "CAPV=64", "TSMWRAPV=%d" % v])
+            if path is None:
+                first = [l for l in open(err).read().splitlines() if "error" in l and "/src/" in l][:2]
+                run.violation("compile:tsm-wrapper-%d-d%d" % (v, dim), "the target/source executor does not compile with %s around a kernel: %s" % (what, " | ".join(first)[:500]),
+                              run.write_replay("compile-tsm-wrapper-%d-d%d" % (v, dim), {"kind": "tsmwrap", "v": v, "dim": dim}))
+                continue
+            pairs, mism = fmm_campaign(run, "C18-tsm-wrap%d-%dd" % (v, dim), consts, tsmwrap=v)
+            report_mismatches(run, "C18", "C18-tsm-wrap%d-%dd" % (v, dim), pairs, mism, ["Counters", "Digest.mp", "Digest.lo", "Digest.rhs", "ExactlyOnce", "Crash"])
     # per-worker copies under task schedules: merged counters must equal the sequential count, each copy used by one worker only
     pairs, mism, _ = omp_campaign(run, "C18-omp-1d-h5", fmm_constants(1, 5, POOL_1D_H5[:7], bss=(1, 2, 20), hists=("full", "stages3")), run.tier, graphs=0)
     report_mismatches(run, "C18", "C18-omp-1d-h5", pairs, [(k, re.sub(r"-(immediate|deferred|tlc)-.*$", "", key), "%s [%s]" % (t, key)) for k, key, t in mism], ["Counters", "KernelPerWorker", "WorkerKernelBound", "Crash"])
@@ -1343,6 +1354,12 @@ def cmd_replay(args):
         print(out[-3000:])
         mism, summary = parse_harness_output(out)
         return 1 if mism else 0
+    if obj.get("kind") == "tsmwrap":
+        path, err = build("replay_fmm_%d_0_64_tsmwrap%d" % (obj["dim"], obj["v"]), "replay_fmm.cpp", ["DIMV=%d" % obj["dim"], "PERIODICV=0", "CAPV=64", "TSMWRAPV=%d" % obj["v"]])
+        if path is None:
+            print("\n".join([l for l in open(err).read().splitlines() if "error" in l][:10]))
+            return 1
+        return 0
     if obj.get("kind") == "record":
         binp, err = build("record_fmm_%d_%d%s" % (obj["dim"], int(obj["periodic"]), "_asan" if obj.get("variant") == "asan" else ""), "record_fmm.cpp",
                           ["DIMV=%d" % obj["dim"], "PERIODICV=%d" % int(obj["periodic"]), "CAPV=1024"], variant=obj.get("variant", "plain"))
